@@ -838,8 +838,22 @@ type matchInfo struct {
 	caps map[string]Val // cap_x -> value
 }
 
-func (e *Engine) matchPattern(sp *ssa.Package, p *callPattern, ev Event, prov func(string) (Val, bool)) (*matchInfo, bool) {
+func (e *Engine) matchPattern(sp *ssa.Package, p *callPattern, ev Event, prov0 func(string) (Val, bool)) (*matchInfo, bool) {
 	mi := &matchInfo{cond: "true", caps: map[string]Val{}}
+	// a receiver expression may name a local of the function under contract (its value at the time of the event)
+	prov := func(name string) (Val, bool) {
+		if v, ok := prov0(name); ok {
+			return v, true
+		}
+		if e.topFrame != nil && ev.St != nil {
+			if c, ok := e.topFrame.named[name]; ok {
+				if v, ok := ev.St.cells[c]; ok && v != nil {
+					return v, true
+				}
+			}
+		}
+		return nil, false
+	}
 	if p.loopContinue {
 		if ev.Callee == "<loop-continues>" {
 			return mi, true
